@@ -42,9 +42,7 @@ theorem exec_min_receive {name : Asset → String} {w w' : World} {s m : Nat} {f
     (h : routerExec name w s funds (.swapOps ops (some m) to) = .ok w') :
     ∃ w0 o target, attach w s w.router funds = .ok w0 ∧ ops.getLast? = some (o, target) ∧
       bal w0 target (to.getD s) + m ≤ bal w' target (to.getD s) := by
-  unfold routerExec at h
-  simp only [bind_ok_iff] at h
-  obtain ⟨w0, h0, h1⟩ := h
+  obtain ⟨w0, h0, _, h1⟩ := routerExec_swapOps_ok h
   obtain ⟨o, target, hl, hb⟩ := route_min_receive h1
   exact ⟨w0, o, target, h0, hl, hb⟩
 
@@ -60,7 +58,9 @@ theorem send_min_receive {name : Asset → String} {w w' : World} {t u amt m : N
     cases hp : w.pair w.router <;> simp [hp] at hr hs
   · simp only [↓reduceIte, bind_ok_iff, pure_ok_iff, Prod.mk.injEq] at h
     obtain ⟨w1, h1, w2, h2, rfl, _⟩ := h
-    obtain ⟨o, target, hl, hb⟩ := route_min_receive (show routerSwapOps name w1 u ops (some m) to = .ok w2 from h2)
+    obtain ⟨_, _, _, he, _, _, h2⟩ := routerReceive_ok h2
+    cases he
+    obtain ⟨o, target, hl, hb⟩ := route_min_receive h2
     exact ⟨w1, o, target, h1, hl, hb⟩
 
 theorem empty_route_rejected {name : Asset → String} {w w' : World} {sender : Nat} {m to : Option Nat} :
